@@ -159,6 +159,18 @@ Proof.
   nra.
 Qed.
 
+(* the simulated dressing of the fertiliser prognosis never takes N out of the soil: the booked amount is >= 0 for EVERY
+   input (demand, supply, water content, layer thickness, N already there), the top layer gains exactly it *)
+Lemma prog_dress_nonneg (c10 dtgesn angebot wg0 dz : R) :
+  let '(c1', bed) := @prog_dress R RNum c10 dtgesn angebot wg0 dz in
+  0 <= bed /\ c1' = c10 + bed.
+Proof.
+  unfold prog_dress. rsimp.
+  destruct (RI.ltb_spec angebot dtgesn) as [H|H]; [|split; lra].
+  destruct (RI.ltb_spec ((c10 + (dtgesn - angebot)) / (wg0 * dz) * 10) 200) as [H2|H2]; [split; lra|].
+  destruct (RI.ltb_spec (200 * wg0 * dz / 10 - c10) 0) as [H3|H3]; split; lra.
+Qed.
+
 (* non-vacuity: winter wheat row of the shipped table, residues stay, three rooted layers *)
 Definition ex_resid : resid_in (T:=R) :=
   {| ri_jn := 0; ri_dauer := false; ri_aa := false; ri_pesum := 180; ri_obmas := 12000; ri_gehob := 15 / 1000;
